@@ -512,7 +512,7 @@ func rulePairedEffects(w *World, r *Report) {
 		return
 	}
 	muts := w.treeMutators(tm)
-	r.Expect("mutators of ast.BaseNode", len(muts), 3)
+	r.Expect("mutators of ast.BaseNode", len(muts), 2)
 	nPaths := 0
 	for _, fn := range muts {
 		key := w.FnKey(fn)
@@ -574,7 +574,7 @@ func rulePairedEffects(w *World, r *Report) {
 			r.OK(key, w.FnPos(fn), "count and attach/detach effects are paired on every path")
 		}
 	}
-	r.Expect("mutator paths enumerated", nPaths, 15)
+	r.Expect("mutator paths enumerated", nPaths, 12)
 }
 
 // ---- C13-X detached nodes carry no links ----------------------------------------------------------------------
@@ -747,7 +747,7 @@ func ruleEndsHaveNoOutwardLink(w *World, r *Report) {
 			r.OK(key, w.FnPos(fn), "every node stored into firstChild/lastChild has no outward sibling link")
 		}
 	}
-	r.Expect("stores to firstChild/lastChild examined on paths", nStores, 10)
+	r.Expect("stores to firstChild/lastChild examined on paths", nStores, 6)
 }
 
 // ---- C13-O insertion point of the in-place sort ---------------------------------------------------------------------
@@ -935,7 +935,7 @@ func ruleLinkSymmetry(w *World, r *Report) {
 			r.OK(key, w.FnPos(fn), "every next/prev write is matched on every path")
 		}
 	}
-	r.Expect("paths checked for link symmetry", n, 15)
+	r.Expect("paths checked for link symmetry", n, 12)
 }
 
 func shortSym(s string) string { return s }
@@ -1021,7 +1021,7 @@ func ruleDetachBeforeAttach(w *World, r *Report) {
 			}
 		}
 	}
-	r.Expect("attach sites in mutators", n, 2)
+	r.Expect("attach sites in mutators", n, 1)
 }
 
 // ---- C05-W -----------------------------------------------------------------------------------------------
@@ -1057,7 +1057,7 @@ func ruleRawSetterCallers(w *World, r *Report) {
 			}
 		}
 	}
-	r.Expect("raw link setter call sites", n, 20)
+	r.Expect("raw link setter call sites", n, 13)
 	if outside == 0 {
 		r.OK("raw setters confined to package ast", "", fmt.Sprintf("%d call sites, all in package ast", n))
 	}
@@ -1130,7 +1130,7 @@ func ruleForeignGuard(w *World, r *Report) {
 			}
 		}
 	}
-	r.Expect("sibling-link reads on argument nodes", n, 3)
+	r.Expect("sibling-link reads on argument nodes", n, 2)
 }
 
 // ---- C13-N -----------------------------------------------------------------------------------------------
@@ -1159,7 +1159,7 @@ func ruleNilReference(w *World, r *Report) {
 			}
 		}
 	}
-	r.Expect("insertion methods with a reference node", len(fns), 2)
+	r.Expect("insertion methods with a reference node", len(fns), 1)
 	if !anyTests {
 		r.OK("no insertion method treats nil as a legal reference", "", "nothing to cross-check")
 		return
@@ -1716,7 +1716,7 @@ func ruleLevelsBounded(w *World, r *Report) {
 		return n
 	}
 	nh := check(w.PkgFunc("ast", "NewHeading"), 1, 6, "NewHeading")
-	r.Expect("calls of ast.NewHeading", nh, 3)
+	r.Expect("calls of ast.NewHeading", nh, 1)
 }
 
 // ---- C13-S / C13-A: detaching calls and aliasing ------------------------------------------------------------
@@ -1833,7 +1833,7 @@ func ruleDetachAliasing(w *World, r *Report) {
 			r.OK(key, w.FnPos(m), fmt.Sprintf("%d detaching call(s); no link value is carried across them", len(dets)))
 		}
 	}
-	r.Expect("mutators containing a detaching call", n, 3)
+	r.Expect("mutators containing a detaching call", n, 2)
 
 	r.Rule("C13-A", "Alias guard: when a mutator M isolates its insertee parameter X and afterwards consults another node parameter Y (the reference), and some mutator in package ast calls M with a reference that is derived from links (e.g. v.NextSibling()) while handing on its own insertee, that derived reference can be the insertee itself. M's isolating call must then be dominated by the fact Y != X (an early return on Y == X): otherwise 'insert b after a' where b already follows a detaches b and never re-attaches it.")
 	na := 0
